@@ -103,6 +103,15 @@ def build(case):
     # a history that ends in the case's own modality collection (other order in between): the drawn table follows the
     # CURRENT collection's order
     impl.prime_modality_order(m, case, lambda mm: None)
+    # ... and in the case's own max_time, reached through a larger one whose pmfs were evaluated; the change back is the
+    # LAST operation before drawing (nothing reads a pmf in between): draws must use the re-evaluated pmf
+    dists = case.get("dists") or {}
+    if dists and all("fam" in d for d in dists.values()):
+        mt = case.get("max_time", 10)
+        m.max_time = mt + 2
+        for t in dists:
+            _ = m.get_distribution(t).pmf
+        m.max_time = mt
     return m
 
 
